@@ -11,6 +11,8 @@ claimed = {
          "bounds: see text; composition with the serve loop's close-on-ConnectionClose is assumed, body/chunk decoding and pipelined streams through serveConnCounted are outside", "§0 C01"),
  "C02": ("the real ServeConn loop is interpreted on a scripted connection: for every combination of body framing (fixed 31 B / fixed 9031 B / chunked), Expect handling, StreamRequestBody, segmenting and handler read amount, the dispatched requests are /first then /second or the connection closes — request-shaped body bytes are never dispatched",
          "bounds: the finite input grammar listed in the evidence (no free symbolic bytes: every branch of the real loop is still decided on the symbolic executor); one known finding excluded (streamed long body left unread)", "§0 C02"),
+ "C03": ("handler programs (5 statuses × 6 body-building calls incl. streams of known/unknown size and stream writers, ≤3/≤6 arbitrary body bytes, GET or HEAD) through the real ServeConn loop; the wire bytes split under an independent RFC 9112 reader into exactly the responses built: status, body (none for HEAD/204/304), and the next response starts where this one ends",
+         "bounds as stated; headers/cookies/compression/trailers/size-mismatching streams/HTTP/1.0 outside", "§0 C03"),
  "C05": ("one setter call with arbitrary name (≤2 bytes) and value (≤2 quick / ≤3 thorough bytes) per path over 20 request/response setters; the serialised head is re-split by an independent scanner: CR/LF only as CRLF, no early blank line, names among those set, bounded line count",
          "bounds: one call per header, name/value lengths as stated; trailers, proxy CONNECT target and URI setters on Request outside; one known finding excluded (non-token header names)", "§0 C05"),
  "C06": ("request-cookie half: up to 2 SetCookie calls with arbitrary key (≤1/≤2 bytes) and value (≤2 bytes); the serialised Cookie value is parsed by a second RequestHeader: never more cookies than set; cookie-octet keys/values round-trip",
@@ -50,7 +52,6 @@ claimed = {
 }
 
 na = {
- "C03": "not built: the serve loop does run under the engine (C02/C10/C14 use it), but the handler-program grammar and the independent response parser for arbitrary response-building calls were not written in this build; nothing is claimed",
  "C04": "not built: needs HostClient.Do against a scripted fake server connection (dial stub, pooled conns, streamed responses); the client path was not brought up under the interpreter in this build",
  "C07": "not built: size-limit harnesses (symbolic limits against header/body/chunk readers) were not written in this build",
  "C15": "not built: Shutdown needs a listener, Serve's accept loop and wall-clock polling; not brought up under the interpreter in this build",
